@@ -41,6 +41,14 @@ Unfortunately the rules are not iherited from base SQLParser, because it just do
 """
 
 
+
+def unquote_name(name):
+    # a column name written in back-quotes denotes the text between them
+    if len(name) > 2 and name[0] == '`' and name[-1] == '`' and '`' not in name[1:-1]:
+        return name[1:-1]
+    return name
+
+
 class MindsDBParser(Parser):
     log = ParserLogger()
     tokens = MindsDBLexer.tokens
@@ -232,7 +240,7 @@ class MindsDBParser(Parser):
 
         columns = None
         if hasattr(p, 'column_list'):
-            columns = [Identifier(i) for i in p.column_list]
+            columns = [Identifier(parts=[i]) for i in p.column_list]
 
         return CreateTrigger(
             name=p.identifier0,
@@ -751,7 +759,7 @@ class MindsDBParser(Parser):
             is_primary_key = True
 
         return TableColumn(
-            name=p[0],
+            name=unquote_name(p[0]),
             type=p[1],
             length=getattr(p, 'INTEGER', None),
             default=default,
@@ -1366,7 +1374,7 @@ class MindsDBParser(Parser):
        'id')
     def column_list(self, p):
         column_list = getattr(p, 'column_list', [])
-        column_list.append(p.id)
+        column_list.append(unquote_name(p.id))
         return column_list
 
     # case
